@@ -8,6 +8,7 @@ import json
 import os
 import re
 import shutil
+import signal
 import subprocess
 import sys
 import time
@@ -112,12 +113,33 @@ def run_job(prop_id, job, tier, seed, replay_case=None, attempt=0):
     logf = os.path.join(outdir, "go-test.log")
     t0 = time.time()
     cwd = os.path.join(REPO, job["module"])
-    wd_cap = cap + 120
+    wd_cap = cap + (120 if cap > 60 else 3)
     with open(logf, "w") as lf:
         lf.write("# cwd=%s\n# %s\n" % (cwd, " ".join(cmd)))
         lf.flush()
-        p = subprocess.run(["timeout", "-s", "QUIT", "-k", "30", str(wd_cap)] + cmd, cwd=cwd, env=env,
-                           stdout=lf, stderr=subprocess.STDOUT)
+        # own process group, so that the watchdog also reaches the test binary (a grandchild)
+        p = subprocess.Popen(cmd, cwd=cwd, env=env, stdout=lf, stderr=subprocess.STDOUT, start_new_session=True)
+        try:
+            p.wait(timeout=wd_cap)
+        except subprocess.TimeoutExpired:
+            for sig, grace in ((signal.SIGQUIT, 30), (signal.SIGKILL, 30)):
+                try:
+                    os.killpg(p.pid, sig)
+                except ProcessLookupError:
+                    break
+                try:
+                    p.wait(timeout=grace)
+                    break
+                except subprocess.TimeoutExpired:
+                    continue
+            if p.returncode is None or p.returncode >= 0:
+                p.returncode = 124
+        else:
+            # nothing of the child may outlive it and keep writing into the job directory
+            try:
+                os.killpg(p.pid, signal.SIGKILL)
+            except (ProcessLookupError, PermissionError):
+                pass
     wall = time.time() - t0
     txt = open(logf, errors="replace").read()
     res = {"job": name, "rc": p.returncode, "wall_s": wall, "log": logf, "outdir": outdir,
@@ -137,7 +159,7 @@ def run_job(prop_id, job, tier, seed, replay_case=None, attempt=0):
         res["status"] = "build_failed"
         res["why"] = "\n".join(txt.splitlines()[:40])
         return res
-    timed_out = p.returncode in (124, 137) or "panic: test timed out" in txt or "SIGQUIT" in txt
+    timed_out = p.returncode in (124, 137, -3, -9) or "panic: test timed out" in txt or "SIGQUIT" in txt
     crash = None
     m = re.search(r"^(panic: .*|fatal error: .*)$", txt, re.M)
     if m and "panic: test timed out" not in m.group(1):
